@@ -19,6 +19,8 @@ class VecIt(object):
 
 
 class KeyModel(Model):
+    unroll_loops = True
+
     def __init__(self, cls, hdr_field, idx_field, flag_fields, idx0, headers):
         self.cls, self.hdr, self.idxf, self.flags, self.idx0, self.headers = cls, hdr_field, idx_field, flag_fields, idx0, headers
         self.column = None
